@@ -83,13 +83,20 @@ static void judge(const std::string& prop, const std::string& sel, bool got, int
 	}
 }
 
+// A selection the library does not implement must be reported by an exception, never by a wrong verdict.
+// (Should it start to answer — somebody implemented it — a CORRECT verdict is no violation.)
 template <class F>
-static void expectNotImplemented(const std::string& prop, const std::string& sel, F f)
+static void expectNotImplemented(const std::string& prop, const std::string& sel, int ref, F f)
 {
 	R->count("runs-unimplemented:" + sel);
-	try { bool r = f(); R->violation(prop + "/" + sel + "/no-exception", std::string("unimplemented selection returned ") + (r ? "true" : "false")); }
-	catch (NotImplementedException&) { }
-	catch (std::exception& e) { R->violation(prop + "/" + sel + "/other-exception", e.what()); }
+	try
+	{
+		bool r = f();
+		if (ref >= 0 && r != static_cast<bool>(ref)) R->violation(prop + "/" + sel + "/wrong-verdict-instead-of-exception", std::string("unimplemented selection returned ") + (r ? "true" : "false"));
+		else R->count("unimplemented-selection-answered-correctly:" + sel);
+	}
+	catch (NotImplementedException&) { R->count("unimplemented-selection-threw:" + sel); }
+	catch (std::exception&) { R->count("unimplemented-selection-threw-other-std-exception:" + sel); }
 }
 
 using gen::maxTuples;
@@ -286,15 +293,15 @@ static void caseC01(uint64_t idx, vh::Rng& g)
 			if (rc != 0 || (out.compare(0, 1, "1") != 0 && out.compare(0, 1, "0") != 0)) R->violation("C01/" + sel + "/cli-failed", "exit " + vh::str(rc) + ": " + out.substr(0, 300));
 			else judge("C01", sel, out[0] == '1', ref, -1);
 		}
-		{ int rc = 0; std::string out = runVata("-r expl -o dir=down,rec=no,optC=yes incl " + fa + " " + fb, rc); R->count("runs-unimplemented:cli-expl/down-nonrec-opt"); if (rc == 0) R->violation("C01/cli-expl/down-nonrec-opt/no-error", "unimplemented selection printed: " + out.substr(0, 100)); }
+		{ int rc = 0; std::string out = runVata("-r expl -o dir=down,rec=no,optC=yes incl " + fa + " " + fb, rc); R->count("runs-unimplemented:cli-expl/down-nonrec-opt"); if (rc == 0 && ref >= 0 && !((out.compare(0, 1, "1") == 0 && ref == 1) || (out.compare(0, 1, "0") == 0 && ref == 0))) R->violation("C01/cli-expl/down-nonrec-opt/wrong-verdict-instead-of-error", "unimplemented selection printed: " + out.substr(0, 100)); }
 	}
 	if (idx % 16 == 0)
 	{	// unimplemented selections must throw NotImplementedException
 		Aut x, y; mkPair(x, y);
 		R->phase("expl/unimplemented");
-		expectNotImplemented("C01", "expl/down-nonrec-opt", [&] { InclParam ip = mkParam(Sel{"", 1, 0, 1, 0}); return Aut::CheckInclusion(x, y, ip); });
-		expectNotImplemented("C01", "expl/up-rec", [&] { InclParam ip = mkParam(Sel{"", 0, 1, 0, 0}); return Aut::CheckInclusion(x, y, ip); });
-		expectNotImplemented("C01", "expl/congruences", [&] { InclParam ip = mkParam(Sel{"", 0, 0, 0, 0}); ip.SetAlgorithm(InclParam::e_algorithm::congruences); return Aut::CheckInclusion(x, y, ip); });
+		expectNotImplemented("C01", "expl/down-nonrec-opt", ref, [&] { InclParam ip = mkParam(Sel{"", 1, 0, 1, 0}); return Aut::CheckInclusion(x, y, ip); });
+		expectNotImplemented("C01", "expl/up-rec", ref, [&] { InclParam ip = mkParam(Sel{"", 0, 1, 0, 0}); return Aut::CheckInclusion(x, y, ip); });
+		expectNotImplemented("C01", "expl/congruences", ref, [&] { InclParam ip = mkParam(Sel{"", 0, 0, 0, 0}); ip.SetAlgorithm(InclParam::e_algorithm::congruences); return Aut::CheckInclusion(x, y, ip); });
 	}
 }
 
@@ -435,12 +442,12 @@ static void caseC07(uint64_t idx, vh::Rng& g)
 		R->phase("bdd/unimplemented");
 		SharedDict sd; auto x = loadText<BDDBottomUpTreeAut>(sa, sd), y = loadText<BDDBottomUpTreeAut>(sb, sd);
 		SharedDict sd2; auto tx = loadText<BDDTopDownTreeAut>(sa, sd2), ty = loadText<BDDTopDownTreeAut>(sb, sd2);
-		expectNotImplemented("C07", "bdd-bu/down-rec", [&] { return BDDBottomUpTreeAut::CheckInclusion(x, y, mkParam(SELS[4])); });
-		expectNotImplemented("C07", "bdd-bu/down-nonrec", [&] { return BDDBottomUpTreeAut::CheckInclusion(x, y, mkParam(SELS[2])); });
-		expectNotImplemented("C07", "bdd-bu/down-rec-opt+sim", [&] { return BDDBottomUpTreeAut::CheckInclusion(x, y, mkParam(SELS[7])); });
-		expectNotImplemented("C07", "bdd-bu/down-rec-opt", [&] { return BDDBottomUpTreeAut::CheckInclusion(x, y, mkParam(SELS[6])); });
-		expectNotImplemented("C07", "bdd-td/up", [&] { return BDDTopDownTreeAut::CheckInclusion(tx, ty, mkParam(SELS[0])); });
-		expectNotImplemented("C07", "bdd-td/down-nonrec", [&] { return BDDTopDownTreeAut::CheckInclusion(tx, ty, mkParam(SELS[2])); });
+		expectNotImplemented("C07", "bdd-bu/down-rec", ref, [&] { return BDDBottomUpTreeAut::CheckInclusion(x, y, mkParam(SELS[4])); });
+		expectNotImplemented("C07", "bdd-bu/down-nonrec", ref, [&] { return BDDBottomUpTreeAut::CheckInclusion(x, y, mkParam(SELS[2])); });
+		expectNotImplemented("C07", "bdd-bu/down-rec-opt+sim", ref, [&] { return BDDBottomUpTreeAut::CheckInclusion(x, y, mkParam(SELS[7])); });
+		expectNotImplemented("C07", "bdd-bu/down-rec-opt", ref, [&] { return BDDBottomUpTreeAut::CheckInclusion(x, y, mkParam(SELS[6])); });
+		expectNotImplemented("C07", "bdd-td/up", ref, [&] { return BDDTopDownTreeAut::CheckInclusion(tx, ty, mkParam(SELS[0])); });
+		expectNotImplemented("C07", "bdd-td/down-nonrec", ref, [&] { return BDDTopDownTreeAut::CheckInclusion(tx, ty, mkParam(SELS[2])); });
 	}
 }
 
